@@ -131,7 +131,7 @@ Proof. exact rejected_tx_unchanged. Qed.
 Print Assumptions C15_rejected_tx_unchanged.
 
 (* ================================================================== voting power rank *)
-From Verif Require Import Gov.VprProofs.
+From Verif Require Import Gov.VprProofs Gov.VprLoad.
 
 (** Buckets stay strictly ordered by account id under vprStore.update, hence a bucket's
     stored bytes are a function of its set of entries. *)
@@ -153,6 +153,17 @@ Theorem C15_vpr_mem_equals_reload_partial : forall c g ops g',
   Connected c g ops g' -> gmirror (g_d g) (g_m g) -> gmirror (g_d g') (g_m g').
 Proof. exact mirror_connected_histories. Qed.
 Print Assumptions C15_vpr_mem_equals_reload_partial.
+
+(** The same as an equation between loadVpr(state) and memory: bucket i of the rank rebuilt
+    from the state is the in-memory bucket i with the sign of every power dropped
+    (big.Int.Bytes(); the identity on the non-negative powers of reachable states).
+    Still _partial w.r.t. the whole clause: totalPower and the powers map are not covered. *)
+Theorem C15_vpr_mem_equals_reload_buckets_partial : forall c g ops g',
+  Connected c g ops g' -> gmirror (g_d g) (g_m g) ->
+  forall i, (i < 71)%N ->
+    get_bucket i (v_buckets (load_vpr (d_vpr (g_d g')))) = bucket_disk (get_bucket i (v_buckets (m_vpr (g_m g')))).
+Proof. exact reload_buckets_equal_memory. Qed.
+Print Assumptions C15_vpr_mem_equals_reload_buckets_partial.
 
 (** F12: without that hypothesis the clause fails — one execution on a block state that is
     never connected leaves residue in the process-wide rank. *)
@@ -221,21 +232,19 @@ Print Assumptions C15_name_tx_conserves.
 (* ================================================================== parameters *)
 From Verif Require Import Gov.ParamProofs.
 
-(** A parameter vote for a NEGATIVE decimal passes validateById; when it reaches the
-    threshold the running node keeps the negative value while the state stores its absolute
-    value: memory and reload differ at a block boundary, and a restarted node validates the
-    same staking transaction differently (known finding C15:param-negative-sign-dropped). *)
-Theorem C15_params_mem_equals_reload_refuted :
-  exists c (g : gstate), get_param c (g_m g) 1%N <> get_param c (reload c (g_d g)) 1%N.
-Proof. exact params_mem_equals_reload_refuted. Qed.
-Print Assumptions C15_params_mem_equals_reload_refuted.
+(** Every candidate of an accepted parameter ballot is a positive number, so what updateParam
+    stores (big.Int.Bytes(), sign dropped) is what it keeps in memory for the running node
+    (since 0d636195; before it a vote for "-5" made memory and state disagree). *)
+Theorem C15_param_vote_no_sign_loss : forall issue vals,
+  all_valid_cands issue vals = None ->
+  forall s, In s vals -> exists z, parse_dec s = Some z /\ 0 < z /\ Z.abs z = z.
+Proof. exact param_vote_no_sign_loss. Qed.
+Print Assumptions C15_param_vote_no_sign_loss.
 
-Theorem C15_restart_changes_validation_refuted :
-  exists c (g : gstate) t,
-    fst (fst (apply_tx c (g_no g) (g_d g) (g_m g) t)) = EOk /\
-    fst (fst (apply_tx c (g_no g) (g_d g) (reload c (g_d g)) t)) = ETooSmall.
-Proof. exact restart_changes_validation_refuted. Qed.
-Print Assumptions C15_restart_changes_validation_refuted.
+(** VoteResult.threshold is total (since 21a8ebaa: no division by zero for a tally < 100 aer). *)
+Theorem C15_threshold_total : forall total power, threshold total power <> None.
+Proof. exact threshold_total. Qed.
+Print Assumptions C15_threshold_total.
 
 (* ================================================================== stored form of the ranking *)
 From Verif Require Import Gov.Serial.
